@@ -65,6 +65,16 @@ CHECKS = {
     "C07": dict(technique="TLC-generated inputs with outside writers (BufContract.tla, 2 files) executed; traces validated by TLC (TraceBuf.tla)",
                 category="model_checking", text=BUF + ". C07: two files / three objects with an outside writer; claimed clauses: file contents, rewrites, which files an error names, capacity afterwards.",
                 note=BUFNOTE, design="5/C07"),
+    "C08": dict(technique="Save.tla model-checked by TLC; real file-operation sequences validated against it by TLC; fork-and-kill crash injection at every primitive and executed line",
+                category="fault_enumeration",
+                text=("Save.tla (pc-labelled save protocol with a Crash action enabled everywhere) is model-checked for the atomic "
+                      "and in-place protocols; the file-operation sequence of every real save scenario is validated against it by "
+                      "TLC (an in-place write or a replace before close in atomic mode is rejected); a process crash is injected "
+                      "at every primitive file operation, 4 prefix lengths of every write, and every executed line of the save / "
+                      "flush path, after which every file must hold exactly old or new bytes and reopen; injected "
+                      "serialisation failures must leave the file untouched in every mode."),
+                note="process crashes only (no fsync/power-loss semantics); scenarios listed in harness/chk_save.py; JSON backend only (the property is about JSON files)",
+                design="5/C08"),
     "C11": dict(technique="TLC enumeration of forbidden-argument edges (MC_PyOps tier=forbid) replayed on all classes; memory and backend scanned",
                 category="model_checking",
                 text=("TLC enumerates every mutating entry point x forbidden item kind x position of the item inside the "
